@@ -124,7 +124,7 @@ def gen_case(ctx, i):
     if f_sel and e0 > s0:
         k = s0 + (i // 6) % (e0 - s0)  # round-robin over every index of the range
         fault = ["exc" if f_sel == 1 else "rank", int(k)]
-    return {"i": i, "kind": kind, "cap": cap, "batch": batch, "regime": regime, "start": start, "end": end, "n": n, "fault": fault,
+    return {"i": i, "kind": kind, "cap": cap, "batch": batch, "regime": regime, "start": start, "end": end, "n": n, "fault": fault, "instances_key": bool(kind == "labels" and r.random() < 0.3),
             "via_from_filename": bool(r.random() < 0.2 and fault is None), "sched_seed": int(r.integers(0, 2 ** 31))}
 
 
@@ -193,7 +193,7 @@ def build(case):
 
         sub = sio.Labels(_STATE["lfs"][:n])
         src = FaultyLabels(sub, n, fault[1], fault[0]) if fault else sub
-        reader = providers.LabelsReader(src, q, instances_key=False)
+        reader = providers.LabelsReader(src, q, instances_key=bool(case.get("instances_key")))
         stop = fault[1] if fault else n
         expected = []
         for lf in _STATE["lfs"][:stop]:
@@ -203,7 +203,7 @@ def build(case):
         mh, mw = 8, 12
     pred = _STATE["Echo"](preprocess=True, preprocess_config={"batch_size": case["batch"], "scale": 1.0, "is_rgb": False, "max_stride": 1,
                                                                 "max_height": mh, "max_width": mw},
-                          pipeline=reader, inference_model=echo)
+                          pipeline=reader, inference_model=echo, instances_key=bool(case.get("instances_key")))
     return reader, pred, q, expected
 
 
@@ -283,7 +283,7 @@ def check(ctx, case):
     ctx.count("injected_delays", inj)
     ctx.count("queue_events", len(q.events))
     small = dict(case)
-    cfg = (case["kind"], case["cap"], case["batch"], case["start"], case["end"], tuple(case["fault"]) if case["fault"] else None)
+    cfg = (case["kind"], case["cap"], case["batch"], case["start"], case["end"], tuple(case["fault"]) if case["fault"] else None, bool(case.get("instances_key")))
     if verdict["watchdog"]:
         ctx.note_inconclusive(f"watchdog expired in an undecided state for {cfg}")
         ctx.tick()
